@@ -80,7 +80,7 @@ func (e *Explorer) runOne(br branch, keepTrace bool, follow bool) *Sched {
 	s.KeepTrace = keepTrace
 	prefix := br.prefix
 	s.decide = func(s *Sched, alts []Alt) int {
-		i := s.steps
+		i := len(s.Choices)
 		if i < len(prefix) {
 			if i == len(prefix)-1 && !follow && br.key != ([2]uint64{}) {
 				if s.Key() != br.key {
